@@ -218,6 +218,8 @@ def do_run(mod, prop, args, seed, scratch, t0):
 
     # replays for new violations
     replay_paths = {}
+    if os.path.isdir(os.path.join(out_root(), 'replays', prop)):
+        shutil.rmtree(os.path.join(out_root(), 'replays', prop), ignore_errors=True)   # witnesses of an earlier run would only mislead
     if new_keys:
         rdir = os.path.join(out_root(), 'replays', prop)
         os.makedirs(rdir, exist_ok=True)
